@@ -293,6 +293,21 @@ def build(prop, seed):
                 if progs[key1.split(':')[1]].get('numprocs', 1) == 1:
                     scen_f['event_drop'] = {'rate': 1.0, 'ns': [key1]}
                     scen_f['t_end'] = 220.0
+            elif rng.random() < 0.4 and len(config['instances']) >= 3:
+                # variant: the required program does not fail by itself, its host is lost right after the request (before any
+                # event); a third level follows, which ABORT / STOP must not request
+                rule1 = app['programs'][1]
+                key1 = '%s:%s' % (app['name'], rule1.get('name') or rule1['pattern'].rstrip('_'))
+                config['children'].pop(key1, None)
+                app['starting_failure_strategy'] = gen.pick(rng, ['STOP', 'ABORT'])
+                app['programs'][-1]['start_sequence'] = 3
+                first = min(s_['nick'] for s_ in config['instances'])
+                for spec in config['instances']:
+                    if spec['nick'] == first:
+                        spec['absent_programs'] = [key1]
+                plan.append({'kind': 'crash', 'inst': '$dst',
+                             'trigger': {'wire': 'supvisors.start_args', 'n': rng.randint(2, 3), 'after': 5.0,
+                                         'delay': gen.pick(rng, [0.0, 0.0, 0.001, 0.05])}})
             return scen_f
     if rng.random() < prof.get('p_join_only', 0.0) and len(config['instances']) >= 3:
         # join-only run: nothing but boots and slow (directed) links, the last joiner being the instance the election
